@@ -247,7 +247,7 @@ PROPERTIES = {
         "level": "exploration",
         "rule": ("1..4 async modules x 1..8 tasks x up to 30 steps of generated timer scripts: sleep, sleep_until (also in the past), timeout over "
                  "{sleep, yield_now, pending, far-future sleep}, biased select! of two sleeps (one possibly far future), poll-once-then-drop, pinned sleep "
-                 "with reset, interval sections with Burst / Delay / Skip and late ticks, recv from a channel fed at generated instants; durations from a small "
+                 "with reset (before its deadline, and after the deadline was reached while the task waited for another timer), interval sections with Burst / Delay / Skip and late ticks, recv from a channel fed at generated instants; durations from a small "
                  "set so that deadlines collide across tasks and cancelled timers leave empty slots in front of live ones. Every step logs (module, task, "
                  "step, SimTime::now(), outcome); oracle = reference interpreter in virtual time: completion time equal (never earlier, never later), outcome "
                  "equal, every step completes, run() Ok, run does not end before the last deadline; hook H5: after every module event a waiting timer has a "
@@ -295,7 +295,7 @@ PROPERTIES = {
     "C09": {
         "level": "fault_enumeration",
         "rule": ("root p0 with 1..3 victim children and a receiver p1; per victim 0..3 shutdown / restart cycles plus requests that arrive while it is down, "
-                 "requested from a message handler or from a task, restart never / in d / at t, two victims sharing the same instants; ticker task, "
+                 "requested from a message handler or from a task, restart never / in d / at t, two victims sharing the same instants; every incarnation sends a message from its first start-up stage (it must be delivered), ticker task, "
                  "self-message beat chain, data messages over a delayed channel (also in flight at the request / restart instant), messages passing through a "
                  "transit gate of the victim on their way to p1 (sent while up, at the gate while down), the parent probing child() periodically; every fifth "
                  "case places arrivals exactly on request / restart instants. All callbacks log into one global sequence. Oracle = evaluation of the statement: "
@@ -424,7 +424,7 @@ PROPERTIES = {
                  "des::runtime::random, choose the out gate and an extra send_in delay from it; start delays drawn with des::runtime::sample; tasks with "
                  "unbiased tokio::select! over three ready futures, select over interval.tick vs a long sleep, random sleeps; a third of the modules requests "
                  "shutdown-and-restart (the restart rebuilds and reseeds the module's tokio runtime), a third emits a message from at_sim_end (never dispatched; "
-                 "it must not reach a later simulation). For each (model, seed): executed twice back to back, once "
+                 "it must not reach a later simulation), a third runs 2..8 tasks that sleep to common deadlines and draw a random value when they wake. For each (model, seed): executed twice back to back, once "
                  "more after an unrelated simulation of another shape and seed, and (every fourth model) in a separate child process started with a random junk "
                  "allocation. The trace = every delivery (time, module path, kind, id, content, source, value drawn), timer completion, task wake-up, select "
                  "branch, plus final time / event count / remaining / result; all executions must be byte-identical. Non-trivial = model whose trace "
